@@ -259,8 +259,11 @@ func replayOne(ti int, tr mbt.Trace, rep *mbt.Report) {
 			case "RealStartProbe":
 				// pseudo step: real OnStart + receiveRoutine on a clone of the node's directory vs the stepped restart
 				i := mbt.Int(st.Args[0])
-				real, sync, perr := s.RealStartProbe(i)
+				real, sync, perr := s.RealStartProbe(i, len(st.Args) > 1 && mbt.Str(st.Args[1]) == "realticker")
 				rep.Count("real_start_probes")
+				if s.ProbeTicks > 10 {
+					rep.Count("real_start_probes_with_more_than_10_replayed_ticks")
+				}
 				if perr != nil {
 					pseudoFail = "RealStart"
 					if strings.Contains(perr.Error(), "Start() blocked") {
